@@ -1,6 +1,7 @@
 package dom
 
 import (
+	"sort"
 	"fmt"
 	"strconv"
 	"strings"
@@ -14,6 +15,8 @@ type muxDom struct {
 	muxes map[int]*res.Mux
 	next  int
 	seen  []int
+	onreg []string
+	listened bool
 }
 
 func init() { Register("mux", func() Domain { return &muxDom{muxes: map[int]*res.Mux{}} }) }
@@ -242,6 +245,9 @@ func (d *muxDom) Gen(r *gen.R, tier string, emit func(string)) {
 			emit(wire.Line("validate", ms))
 			emit(wire.Line("fullpath", ms))
 		}
+		// last operation of the block: mux 0 (with everything mounted below it) is mounted on a service;
+		// every handler's OnRegister callback is told its full pattern
+		emit(wire.Line("onreg"))
 	}
 }
 
@@ -265,6 +271,7 @@ func (d *muxDom) Exec(a []string) string {
 		case "reset":
 			d.muxes = map[int]*res.Mux{}
 			d.next = 0
+			d.listened = false
 			return "ok"
 		case "new":
 			d.muxes[atoi(a[1])] = res.NewMux(a[2])
@@ -272,7 +279,8 @@ func (d *muxDom) Exec(a []string) string {
 		case "handle":
 			id := d.next
 			d.next++
-			h := res.Handler{Call: map[string]res.CallHandler{strconv.Itoa(id): nil}}
+			h := res.Handler{Call: map[string]res.CallHandler{strconv.Itoa(id): nil},
+				OnRegister: func(_ *res.Service, p res.Pattern, _ res.Handler) { d.onreg = append(d.onreg, string(p)) }}
 			switch a[3] {
 			case "group":
 				h.Group = a[4]
@@ -287,6 +295,7 @@ func (d *muxDom) Exec(a []string) string {
 		case "listen":
 			id := d.next
 			d.next++
+			d.listened = true
 			d.muxes[atoi(a[1])].AddListener(a[2], func(*res.Event) { d.seen = append(d.seen, id) })
 			return "ok"
 		case "mount":
@@ -310,6 +319,40 @@ func (d *muxDom) Exec(a []string) string {
 				ls[i] = strconv.Itoa(v)
 			}
 			return fmt.Sprintf("h=%s ls=[%s] params=%s group=%s", hid, strings.Join(ls, ", "), wire.Map(m.Params), wire.Enc(m.Group))
+		case "onreg":
+			d.onreg = nil
+			m0, ok := d.muxes[0]
+			if !ok {
+				return "nomux"
+			}
+			sv := res.NewService("svc")
+			sv.Mount("top", m0)
+			// placeholders compared by position; by name too when no listener was registered in this block (a
+			// listener on the same node may give an anonymous placeholder its name)
+			render := func(norm bool) string {
+				out := make([]string, len(d.onreg))
+				for i, p := range d.onreg {
+					if norm {
+						toks := strings.Split(p, ".")
+						for j, t := range toks {
+							if len(t) > 1 && t[0] == '$' {
+								toks[j] = "*"
+							}
+						}
+						p = strings.Join(toks, ".")
+					}
+					out[i] = p
+				}
+				sort.Strings(out)
+				for i := range out {
+					out[i] = wire.Enc(out[i])
+				}
+				return "[" + strings.Join(out, ",") + "]"
+			}
+			if d.listened {
+				return "norm=" + render(true) + " exact=-"
+			}
+			return "norm=" + render(true) + " exact=" + render(false)
 		case "validate":
 			if d.muxes[atoi(a[1])].ValidateListeners() != nil {
 				return "err"
